@@ -59,7 +59,7 @@ def gen_case(rng, force_pair=False):
         # location and unit of a continuous outcome are arbitrary: a proportion inside (0,1), negative values, large units
         y = df['Y']
         z = (y - y.min()) / (y.max() - y.min() + 1e-12)
-        yscale = rng.choice(['as drawn', 'proportion', 'proportion', 'negative', 'large'])
+        yscale = rng.choice(['as drawn', 'proportion', 'proportion', 'negative', 'large', 'tiny'])
         df = df.copy()
         if yscale == 'proportion':
             # a proportion with little noise around a strong treatment + covariate signal: counterfactual predictions at the
@@ -73,6 +73,8 @@ def gen_case(rng, force_pair=False):
             df['Y'] = np.round(-40.0 + 15.0 * z, 3)
         elif yscale == 'large':
             df['Y'] = np.round(2.5e5 + 9.0e5 * z, 0)
+        elif yscale == 'tiny':
+            df['Y'] = (3.0 + np.round(9.0 * z, 3)) * 1e-9        # a concentration in mol/L: the whole range is of order 1e-8
     meta['yscale'] = yscale
     # the storage type of a 0/1-coded exposure column is part of "every data set"
     adtype = str(rng.choice(['int64', 'int64', 'float64', 'uint8', 'int8', 'int32', 'float32']))
@@ -243,6 +245,16 @@ def check_case(ctx, fails, case, tr, small_exprs, small_refs):
         if abs(float(tm._continuous_min) - omin) > 1e-12 * max(1.0, abs(omin)) or abs(float(tm._continuous_max) - omax) > 1e-12 * max(1.0, abs(omax)):
             fails.append((n, 'TMLE.range.anchors', 'continuous outcome observed in [%r, %r] but the estimator maps it to the unit interval with '
                           'minimum %r and maximum %r' % (omin, omax, float(tm._continuous_min), float(tm._continuous_max)), payload))
+        # ... and the working outcome is the affine image of the recorded one: (Y - min) / (max - min), truncated to [cb, 1 - cb]
+        if len(tm.df) == len(df) and omax > omin:
+            cbv_ = float(tm._cb)
+            want_ = np.clip((rawy - omin) / (omax - omin), cbv_, 1 - cbv_)
+            okm = ~np.isnan(rawy)
+            ctx.disagreements_checked += 1
+            dev_ = float(np.max(np.abs(np.asarray(y, dtype=float)[okm] - want_[okm]))) if okm.any() else 0.0
+            if dev_ > 1e-9:
+                fails.append((n, 'TMLE.range.unit-map', 'the unit-interval image of the outcome differs from (Y - min)/(max - min) by up to %g (outcome '
+                              'observed in [%r, %r])' % (dev_, omin, omax), payload))
     # (5b) the translated unit-interval map reproduces the outcome column the estimator works on
     if tr and not binary and 'tmle_unit_bounds' in tr:
         raw = np.asarray(df['Y'], dtype=float) if len(tm.df) == len(df) else None      # no row is dropped on entry in these frames
